@@ -5,6 +5,7 @@ import (
 	"flag"
 	"fmt"
 	"os"
+	"runtime"
 	"runtime/debug"
 	"strings"
 	"time"
@@ -66,6 +67,7 @@ func Main(chk *Check, args []string) int {
 		return chk.Replay(c, *replay)
 	}
 	debug.SetGCPercent(800) // the checks allocate small short-lived objects in 16 workers: collect less often
+	go watchdog(chk, c, *budget)
 	o := runRecovering(chk, c)
 	e := &ev.Evidence{PropertyID: chk.ID, Tier: *tier, Seed: ev.Seed(), Level: o.Level, Coverage: o.Coverage,
 		Assumptions: o.Assumptions, WallS: time.Since(c.Rep.Start).Seconds(), Violations: len(c.Rep.Violations), KnownFindingsHit: c.Rep.KnownHitList()}
@@ -87,6 +89,20 @@ func Main(chk *Check, args []string) int {
 		return 2
 	}
 	return c.Rep.Finish()
+}
+
+// watchdog: the enumeration loops stop by themselves when the budget is over; a run that is still going long
+// after that is sitting in a call into the code under test that does not return. That is reported as a violation
+// (with a dump of all goroutines, which names the call), not left to whoever started the check to kill.
+func watchdog(chk *Check, c *Ctx, budget int) {
+	grace := time.Duration(3*budget+180) * time.Second
+	time.Sleep(time.Until(c.Deadline) + grace)
+	buf := make([]byte, 1<<20)
+	buf = buf[:runtime.Stack(buf, true)]
+	msg := fmt.Sprintf("the check was still running %v after its budget of %d s had expired: a call into the code under test does not return (infinite loop or deadlock). Goroutines:\n%s", grace, budget, buf)
+	path := ev.WriteReplay(chk.ID, "no-termination", map[string]any{"property": chk.ID, "violation": msg, "how_to_replay": "./check " + chk.ID})
+	fmt.Printf("VIOLATION property=%s replay=%s\n  signature: %s: a call into the code under test does not return\n", chk.ID, path, chk.ID)
+	os.Exit(1)
 }
 
 // runRecovering runs the check; a panic that escapes on the main goroutine (the code under test panicking in a
